@@ -2,4 +2,412 @@
 
 package centrifuge
 
-func verifC14Map(line string) string { return "bad-op" }
+// C14 harness, map subscriptions (MemoryMapBroker, MapModeRecoverable) with fossil delta.
+//
+//   mp proto=json|pb cf=0|1 sf=0|1 psize=N P=<hex,…> ops=<tok,…>
+// ops: p<i>.<key>.<t>.<d>  MapPublish payload i under key k<key>; t bit0/bit1 = passes client/server filter;
+//                           d = UseDelta
+//      x<key>               MapRemove
+//      S                    full subscribe protocol (state pages → stream pages → live), delta=fossil
+//      R                    recovering join (phase=live, recover from the saved position)
+//      U                    unsubscribe
+// The harness plays the client: one payload per key, state entries and full publications replace it,
+// delta publications are applied with the real fdelta.Apply, removals delete it.
+// Output per op: `s:[…]` (state entries sorted by offset, then publications), `r:rec=…:[…]`, `p:…`, `x:…`, `u`;
+// delivery tokens `F<off>` / `D<off>` / `X<off>` (removal), `!` = the client could not reconstruct the
+// payload published at that offset.
+
+import (
+	"bytes"
+	"context"
+	"encoding/hex"
+	"fmt"
+	"sort"
+	"strconv"
+	"strings"
+	"time"
+	"unicode/utf8"
+
+	"github.com/centrifugal/protocol"
+	fdelta "github.com/shadowspore/fossil-delta"
+)
+
+type verifC14MapClient struct {
+	isJSON   bool
+	vals     map[string][]byte
+	payloads [][]byte
+	byOff    map[uint64]int
+	why      []string
+	n        int
+}
+
+func (c *verifC14MapClient) deliver(pub *protocol.Publication) string {
+	c.n++
+	if pub.Removed {
+		delete(c.vals, pub.Key)
+		return "X" + strconv.FormatUint(pub.Offset, 10)
+	}
+	kind := "F"
+	if pub.Delta {
+		kind = "D"
+	}
+	tok := kind + strconv.FormatUint(pub.Offset, 10)
+	expect, known := c.byOff[pub.Offset]
+	data, okd := verifC14Data(c.isJSON, pub.Data)
+	var got []byte
+	ok := okd
+	reason := ""
+	if !okd {
+		reason = "undecodable-json-string"
+	} else if pub.Delta {
+		base, has := c.vals[pub.Key]
+		if !has {
+			ok, reason = false, "delta-without-base"
+		} else if res, err := fdelta.Apply(base, data); err != nil {
+			ok, reason = false, "apply-error"
+		} else {
+			got = res
+		}
+	} else {
+		got = data
+	}
+	if ok && known && bytes.Equal(got, c.payloads[expect]) {
+		c.vals[pub.Key] = got
+		return tok
+	}
+	if !known {
+		reason = "unknown-offset"
+	} else if ok {
+		reason = "wrong-result"
+	}
+	if pub.Delta && okd && known {
+		if bytes.Contains(data, []byte("\xef\xbf\xbd")) && !bytes.Contains(c.payloads[expect], []byte("\xef\xbf\xbd")) {
+			reason += "+replacement-char-in-patch"
+		}
+	}
+	c.why = append(c.why, fmt.Sprintf("%d:%s:%s", c.n, tok, reason))
+	if known {
+		c.vals[pub.Key] = c.payloads[expect]
+	}
+	return tok + "!"
+}
+
+func verifC14Map(line string) (res string) {
+	defer func() {
+		if r := recover(); r != nil {
+			res = fmt.Sprintf("PANIC %v", r)
+		}
+	}()
+	kv := verifC14KV(line)
+	isJSON := kv["proto"] == "json"
+	cf := kv["cf"] == "1"
+	sf := kv["sf"] == "1"
+	psize, _ := strconv.Atoi(kv["psize"])
+	if psize <= 0 {
+		psize = 100
+	}
+	var payloads [][]byte
+	if kv["P"] != "" {
+		for _, h := range strings.Split(kv["P"], ",") {
+			if h == "-" {
+				payloads = append(payloads, []byte{})
+				continue
+			}
+			b, err := hex.DecodeString(h)
+			if err != nil {
+				return "bad-op"
+			}
+			payloads = append(payloads, b)
+		}
+	}
+	var ops []string
+	if kv["ops"] != "" {
+		ops = strings.Split(kv["ops"], ",")
+	}
+	node, err := New(Config{
+		LogLevel: LogLevelError, LogHandler: func(e LogEntry) {},
+		ClientChannelPositionMaxTimeLag: time.Hour, ClientChannelPositionCheckDelay: time.Hour,
+		Map: MapConfig{GetMapChannelOptions: func(channel string) MapChannelOptions {
+			return MapChannelOptions{Mode: MapModeRecoverable, KeyTTL: time.Hour, MinPageSize: 1}
+		}},
+	})
+	if err != nil {
+		return "harness-error new-node " + err.Error()
+	}
+	mb, err := NewMemoryMapBroker(node, MemoryMapBrokerConfig{})
+	if err != nil {
+		return "harness-error map-broker " + err.Error()
+	}
+	node.SetMapBroker(mb)
+	var serverFilter *FilterNode
+	if sf {
+		serverFilter = &FilterNode{Op: "", Key: "s", Cmp: "eq", Val: "v"}
+	}
+	node.OnConnecting(func(ctx context.Context, e ConnectEvent) (ConnectReply, error) {
+		return ConnectReply{Credentials: &Credentials{UserID: "u"}}, nil
+	})
+	node.OnConnect(func(c *Client) {
+		c.OnSubscribe(func(e SubscribeEvent, cb SubscribeCallback) {
+			cb(SubscribeReply{Options: SubscribeOptions{Type: SubscriptionTypeMap, AllowTagsFilter: true,
+				AllowedDeltaTypes: []DeltaType{DeltaTypeFossil}, ServerTagsFilter: serverFilter}}, nil)
+		})
+	})
+	if err := node.Run(); err != nil {
+		return "harness-error run " + err.Error()
+	}
+	defer func() { _ = node.Shutdown(context.Background()) }()
+	const ch = "ch"
+	proto := ProtocolTypeProtobuf
+	if isJSON {
+		proto = ProtocolTypeJSON
+	}
+	tr := &verifC14Transport{notify: make(chan struct{}, 1), proto: proto}
+	ctx, cancel := context.WithCancel(context.Background())
+	defer cancel()
+	client, closeFn, err := NewClient(ctx, node, tr)
+	if err != nil {
+		return "harness-error new-client"
+	}
+	defer func() { _ = closeFn() }()
+	cmdID := uint32(0)
+	command := func(cmd *protocol.Command) *protocol.Reply {
+		cmdID++
+		cmd.Id = cmdID
+		id := cmd.Id
+		client.HandleCommand(cmd, 0)
+		var rep *protocol.Reply
+		tr.waitFor(func(rs []*protocol.Reply, closed bool) bool {
+			for _, x := range rs {
+				if x.Id == id {
+					rep = x
+					return true
+				}
+			}
+			return closed
+		})
+		return rep
+	}
+	if rep := command(&protocol.Command{Connect: &protocol.ConnectRequest{}}); rep == nil || rep.Error != nil {
+		return "harness-error connect"
+	}
+	cursor := 1
+	fence := 0
+	doFence := func() {
+		fence++
+		marker := []byte(fmt.Sprintf(`{"fence":%d}`, fence))
+		if err := client.Send(marker); err != nil {
+			return
+		}
+		tr.waitFor(func(rs []*protocol.Reply, closed bool) bool {
+			if closed {
+				return true
+			}
+			for i := len(rs) - 1; i >= 0 && i >= len(rs)-50; i-- {
+				if rs[i].Push != nil && rs[i].Push.Message != nil && bytes.Equal(rs[i].Push.Message.Data, marker) {
+					return true
+				}
+			}
+			return false
+		})
+	}
+	var savedOff uint64
+	var savedEpoch string
+	cm := &verifC14MapClient{isJSON: isJSON, vals: map[string][]byte{}, payloads: payloads, byOff: map[uint64]int{}}
+	collect := func() string {
+		tr.mu.Lock()
+		rs := append([]*protocol.Reply(nil), tr.replies[cursor:]...)
+		cursor = len(tr.replies)
+		tr.mu.Unlock()
+		var toks []string
+		for _, r := range rs {
+			if r.Push != nil && r.Push.Pub != nil {
+				toks = append(toks, cm.deliver(r.Push.Pub))
+				if r.Push.Pub.Offset > savedOff {
+					savedOff = r.Push.Pub.Offset // the client's position follows the pushes it saw
+				}
+			}
+			if r.Push != nil && r.Push.Unsubscribe != nil {
+				toks = append(toks, fmt.Sprintf("x%d", r.Push.Unsubscribe.Code))
+			}
+		}
+		if len(toks) == 0 {
+			return "-"
+		}
+		return strings.Join(toks, "+")
+	}
+	tagsFor := func(t int) map[string]string {
+		tags := map[string]string{"c": "x", "s": "x"}
+		if t&1 != 0 {
+			tags["c"] = "v"
+		}
+		if t&2 != 0 {
+			tags["s"] = "v"
+		}
+		return tags
+	}
+	var tf *protocol.FilterNode
+	if cf {
+		tf = &protocol.FilterNode{Op: "", Key: "c", Cmp: "eq", Val: "v"}
+	}
+	subscribed := false
+	var out []string
+	for _, op := range ops {
+		if op == "" {
+			continue
+		}
+		switch op[0] {
+		case 'p':
+			parts := strings.Split(op[1:], ".")
+			if len(parts) != 4 {
+				return "bad-op"
+			}
+			i, _ := strconv.Atoi(parts[0])
+			t, _ := strconv.Atoi(parts[2])
+			if i < 0 || i >= len(payloads) {
+				return "bad-op"
+			}
+			r, err := node.MapPublish(context.Background(), ch, "k"+parts[1], MapPublishOptions{Data: payloads[i], Tags: tagsFor(t), UseDelta: parts[3] == "1"})
+			if err != nil {
+				return "harness-error publish " + err.Error()
+			}
+			cm.byOff[r.Position.Offset] = i
+			doFence()
+			out = append(out, "p:"+collect())
+		case 'x':
+			r, err := node.MapRemove(context.Background(), ch, "k"+op[1:], MapRemoveOptions{})
+			if err != nil {
+				return "harness-error remove " + err.Error()
+			}
+			doFence()
+			d := collect()
+			if r.Suppressed {
+				d = "suppressed"
+			}
+			out = append(out, "x:"+d)
+		case 'U':
+			if !subscribed {
+				out = append(out, "u:not")
+				continue
+			}
+			command(&protocol.Command{Unsubscribe: &protocol.UnsubscribeRequest{Channel: ch}})
+			doFence()
+			collect()
+			subscribed = false
+			out = append(out, "u")
+		case 'S':
+			if subscribed {
+				out = append(out, "s:already")
+				continue
+			}
+			cm.vals = map[string][]byte{} // a full state sync replaces what the client had
+			req := &protocol.SubscribeRequest{Channel: ch, Type: int32(SubscriptionTypeMap), Phase: MapPhaseState, Limit: int32(psize), Tf: tf, Delta: "fossil"}
+			var stateToks []string
+			var pubToks []string
+			type st struct {
+				off uint64
+				tok string
+			}
+			var sts []st
+			failed := ""
+			for step := 0; step < 300; step++ {
+				rep := command(&protocol.Command{Subscribe: req})
+				if rep == nil {
+					return "harness-error map-subscribe"
+				}
+				if rep.Error != nil {
+					failed = fmt.Sprintf("err%d", rep.Error.Code)
+					break
+				}
+				sr := rep.Subscribe
+				for _, p := range sr.State {
+					sts = append(sts, st{p.Offset, cm.deliver(p)})
+				}
+				for _, p := range sr.Publications {
+					pubToks = append(pubToks, cm.deliver(p))
+				}
+				if sr.Phase == MapPhaseLive {
+					savedOff, savedEpoch = sr.Offset, sr.Epoch
+					subscribed = true
+					break
+				}
+				if sr.Phase == MapPhaseStream {
+					req = &protocol.SubscribeRequest{Channel: ch, Type: int32(SubscriptionTypeMap), Phase: MapPhaseStream, Limit: int32(psize), Offset: sr.Offset, Epoch: sr.Epoch, Delta: "fossil"}
+				} else if sr.Cursor != "" {
+					req = &protocol.SubscribeRequest{Channel: ch, Type: int32(SubscriptionTypeMap), Phase: MapPhaseState, Limit: int32(psize), Cursor: sr.Cursor, Delta: "fossil"}
+				} else {
+					req = &protocol.SubscribeRequest{Channel: ch, Type: int32(SubscriptionTypeMap), Phase: MapPhaseStream, Limit: int32(psize), Offset: sr.Offset, Epoch: sr.Epoch, Delta: "fossil"}
+				}
+			}
+			if failed != "" {
+				out = append(out, "s:"+failed)
+				continue
+			}
+			sort.Slice(sts, func(i, j int) bool { return sts[i].off < sts[j].off })
+			for _, s := range sts {
+				stateToks = append(stateToks, s.tok)
+			}
+			doFence()
+			collect()
+			out = append(out, "s:["+strings.Join(stateToks, "+")+"]:["+strings.Join(pubToks, "+")+"]")
+		case 'R':
+			if subscribed {
+				out = append(out, "r:already")
+				continue
+			}
+			rep := command(&protocol.Command{Subscribe: &protocol.SubscribeRequest{Channel: ch, Type: int32(SubscriptionTypeMap),
+				Phase: MapPhaseLive, Recover: true, Offset: savedOff, Epoch: savedEpoch, Tf: tf, Delta: "fossil"}})
+			if rep == nil {
+				return "harness-error rejoin"
+			}
+			if rep.Error != nil {
+				out = append(out, fmt.Sprintf("r:err%d", rep.Error.Code))
+				continue
+			}
+			var toks []string
+			for _, p := range rep.Subscribe.Publications {
+				toks = append(toks, cm.deliver(p))
+			}
+			savedOff, savedEpoch = rep.Subscribe.Offset, rep.Subscribe.Epoch
+			subscribed = true
+			rec := 0
+			if rep.Subscribe.Recovered {
+				rec = 1
+			}
+			doFence()
+			collect()
+			out = append(out, fmt.Sprintf("r:rec=%d:[%s]", rec, strings.Join(toks, "+")))
+		default:
+			return "bad-op"
+		}
+	}
+	var rows []string
+	codecBad := ""
+	for i := range payloads {
+		var sb strings.Builder
+		for j := range payloads {
+			patch := fdelta.Create(payloads[i], payloads[j])
+			back, err := fdelta.Apply(payloads[i], patch)
+			if err != nil || !bytes.Equal(back, payloads[j]) {
+				codecBad = fmt.Sprintf("%d>%d", i, j)
+			}
+			switch {
+			case len(patch) >= len(payloads[j]):
+				sb.WriteByte('0')
+			case utf8.Valid(patch):
+				sb.WriteByte('1')
+			default:
+				sb.WriteByte('2')
+			}
+		}
+		rows = append(rows, sb.String())
+	}
+	resLine := strings.Join(out, " | ") + " ## M=" + strings.Join(rows, ".")
+	if len(payloads) == 0 {
+		resLine += "-"
+	}
+	resLine += " ## why=" + strings.Join(cm.why, ",")
+	if codecBad != "" {
+		resLine += " ## codec-hypothesis-violated=" + codecBad
+	}
+	return resLine
+}
